@@ -10,10 +10,10 @@ package shard
 import (
 	"errors"
 	"fmt"
-	"sync/atomic"
 	"io"
 	"math/rand/v2"
 	"path/filepath"
+	"sync/atomic"
 	"testing"
 	"time"
 
